@@ -6,4 +6,8 @@ EvenReprC == TRUE
 OddReprC == TRUE
 BaseIsZeroLenArray == TRUE
 WrapperTransparent == TRUE
+EvenPack == 0
+OddPack == 0
+EvenAlign == 0
+OddAlign == 0
 =============================================================================
